@@ -835,6 +835,7 @@ pub fn check(ctx: &mut Ctx) {
 	ctx.run_sub(&ParserStrictness);
 	error_codes(ctx);
 	corpus_replay(ctx);
+	fuzz_campaign(ctx, "c15_response", 5_000_000, 256);
 	ctx.exhaustive = false;
 	ctx.extra.insert("error_codes_exhaustive_i32".into(), json!(true));
 }
